@@ -58,7 +58,8 @@ theorem visitIds_nodup (t : Tree) (hok : TreeOk t) (ho : Ordered t) (hpl : Paren
 /-- A flush is nothing at all, or the queue loop followed by the rendering of a tree that satisfies the invariants. -/
 theorem flush_decompose (beh : Id → Rect → List DrawOp) (content : Id → Int → Int → Cell) (st st' : St) (shots : List Shot)
     (h : WinFlush.flush beh st = .ok (st', shots)) (hg : GoodQ content st) :
-    shots = [] ∨ ∃ t, flushRender beh st t = .ok (st', shots) ∧ TInv content st.screen t := by
+    (st' = st ∧ shots = []) ∨
+      ∃ t, flushRender beh st t = .ok (st', shots) ∧ TInv content st.screen t ∧ t.wins.size = st.tree.wins.size := by
   have hI := hg.tinv
   obtain ⟨root, hr, hf, hrr, hrp, _, _⟩ := hI.ok.rootWin.ex
   unfold WinFlush.flush at h
@@ -70,7 +71,7 @@ theorem flush_decompose (beh : Id → Rect → List DrawOp) (content : Id → In
   | false =>
     simp only [hnl, pure, Pure.pure] at h
     simp at h
-    exact Or.inl h.2
+    exact Or.inl ⟨h.1.symm, h.2⟩
   | true =>
     simp only [hnl, Bool.false_eq_true, if_false, Bool.not_true] at h
     right
@@ -95,8 +96,64 @@ theorem flush_decompose (beh : Id → Rect → List DrawOp) (content : Id → In
       rw [hq] at h
       simp only at h
       rw [hfq] at hq
-      obtain ⟨a1, _⟩ := applyChanges_step content st.screen st.tree.root.changes t0 t hg.queue hI0 hq
-      exact ⟨t, h, a1⟩
+      obtain ⟨a1, _, a3, _⟩ := applyChanges_step content st.screen st.tree.root.changes t0 t hg.queue hI0 hq
+      exact ⟨t, h, a1, by rw [a3, h0w]⟩
+
+/-! ### handlers that call `tickit_window_expose` while the flush runs (`flushX`) -/
+
+theorem applyExposes_good (content : Id → Int → Int → Cell) (st : St) :
+    ∀ (l : List (Id × Option Rect)) (t t' : Tree), applyExposes (t.wins.size + 1) t l = .ok t' →
+    GoodQ content { st with tree := t } → GoodQ content { st with tree := t' } ∧ t'.wins = t.wins := by
+  intro l
+  induction l with
+  | nil => intro t t' h hg; simp only [applyExposes] at h; cases h; exact ⟨hg, rfl⟩
+  | cons x rest ih =>
+    intro t t' h hg
+    obtain ⟨w, e⟩ := x
+    simp only [applyExposes, bind, Bind.bind] at h
+    cases he : expose t (t.wins.size + 1) w e with
+    | ub err => rw [he] at h; cases h
+    | ok t1 =>
+      rw [he] at h
+      simp only at h
+      have hg1 : GoodQ content { st with tree := t1 } := goodQ_expose content { st with tree := t } w e t1 he hg
+      have hw1 : t1.wins = t.wins := (expose_wins_root _ t w e t1 he).1
+      rw [← hw1] at h
+      obtain ⟨a, b⟩ := ih t1 t' h hg1
+      exact ⟨a, b.trans hw1⟩
+
+/-- **A flush whose handlers also expose** (`flushX`: the exposes are for the *next* flush): the invariant is kept and the
+    screen is exact for the tree as flushed. -/
+theorem goodQ_flushX (beh : Id → Rect → List DrawOp) (behExp : Id → Rect → List (Id × Option Rect))
+    (content : Id → Int → Int → Cell) (st st' : St) (shots : List Shot)
+    (h : flushX beh behExp st = .ok (st', shots)) (hrep : Repaints content beh) (hg : GoodQ content st) :
+    GoodQ content st' ∧ ExactC content st'.tree st'.screen := by
+  unfold flushX at h
+  simp only [bind, Bind.bind] at h
+  cases hf : WinFlush.flush beh st with
+  | ub e => rw [hf] at h; cases h
+  | ok r =>
+    rw [hf] at h
+    simp only at h
+    obtain ⟨g1, hex, _, _⟩ := goodQ_flush beh content st r.1 r.2 hf hrep hg
+    have hsz : r.1.tree.wins.size = st.tree.wins.size := by
+      rcases flush_decompose beh content st r.1 r.2 hf hg with ⟨e1, _⟩ | ⟨t, hr, _, hs⟩
+      · rw [e1]
+      · rw [(flushRender_tree beh st r.1 t r.2 hr).1, hs]
+    cases ha : applyExposes st.fuel r.1.tree (r.2.flatMap fun sh => behExp sh.win sh.rect) with
+    | ub e => rw [ha] at h; cases h
+    | ok t' =>
+      rw [ha] at h
+      simp only [pure, Pure.pure, Res.ok.injEq, Prod.mk.injEq] at h
+      obtain ⟨h1, _⟩ := h
+      subst h1
+      have ha' : applyExposes (r.1.tree.wins.size + 1) r.1.tree (r.2.flatMap fun sh => behExp sh.win sh.rect) = .ok t' := by
+        rw [hsz]; exact ha
+      obtain ⟨g2, hw⟩ := applyExposes_good content r.1 _ r.1.tree t' ha' g1
+      refine ⟨g2, ?_⟩
+      intro L C w l c ho
+      rw [ownerAt_congr t' r.1.tree hw] at ho
+      exact hex L C w l c ho
 
 end WinFlush
 end Tickit
